@@ -42,6 +42,13 @@ CRATES = {
         "dir": "ffi/storm-ffi",
         "attach": [("src/lib.rs", "ffi/storm.rs", "verif_kani_storm", "")],
         "kani_args": ["--lib"],
+        # archive-level steps fabricate a wow_mpq::Archive through a pub facade attached to the dependency
+        "needs": ["mpq_pub"],
+    },
+    "mpq_pub": {
+        "dir": "file-formats/archives/wow-mpq",
+        "attach": [("src/archive.rs", "mpq/archive_fab.rs", "verif_kani_archive", "pub")],
+        "prepend": [("src/lib.rs", "#![cfg_attr(kani, feature(read_buf, core_io_borrowed_buf))]")],
     },
     "wdt": {
         "dir": "file-formats/world-data/wow-wdt",
@@ -49,7 +56,11 @@ CRATES = {
     },
     "wdl": {
         "dir": "file-formats/world-data/wow-wdl",
-        "attach": [("src/lib.rs", "wdl/wdl.rs", "verif_kani_wdl", "")],
+        "attach": [("src/lib.rs", "wdl/wdl.rs", "verif_kani_wdl", ""),
+                   ("src/lib.rs", "env/vmap.rs", "verif_vmap", "pub(crate)")],
+        # scratch copy only: the tile maps become the association-list model of HashMap (hashbrown is not executable in CBMC)
+        "rewrite": [(f, r"^use std::collections::HashMap;$", "#[cfg(kani)] use crate::verif_vmap::VMap as HashMap;\n#[cfg(not(kani))] use std::collections::HashMap;")
+                    for f in ("src/types.rs", "src/parser.rs", "src/conversion.rs")],
     },
 }
 
@@ -184,6 +195,13 @@ H("C18", "wdt", _W, "quick", "C18.d MWMO emission rule is stable under write->re
 # c18b_maid_roundtrip_1_section, c18b_main_roundtrip (64x64 grids of nested Vecs), c18c_mwmo_roundtrip (String::from_utf8 on symbolic bytes).
 H("C18", "wdt", _W, "quick", "canary", ["c18_wdt_canary"], ["tile_to_world"], "vacuity twin", "-", expect="canary")
 _L = "verif_kani_wdl"
+H("C18", "wdl", _L, "thorough", "C18.f WDL file writer: every MAOF entry of a present tile is the file offset of that tile's MARE chunk (magic, 1090 bytes, the tile's heights), "
+  "a MAHO chunk follows exactly the tiles with holes (never in a version without MAHO), absent tiles have offset 0, the chunks tile the file to its end",
+  ["c18f_wdl_writer_offsets_wotlk_middle_without_holes", "c18f_wdl_writer_offsets_wotlk_no_holes", "c18f_wdl_writer_offsets_vanilla", "c18f_wdl_writer_offsets_legion_all_holes"],
+  ["parser::WdlParser::write", "types::HeightMapTile::write", "types::HolesData::write", "types::Chunk::{new,write}"],
+  "three tiles at (3,0), (5,0), (0,1); one outer and one inner height and one hole mask per tile symbolic; which tiles carry holes and the version concrete per harness; probe index over the 4093 absent tiles symbolic",
+  "3 tiles, full 64x64 MAOF table, 20 KiB output; no WMO / model chunks",
+  stubs=[FMT, "HashMap -> association-list model in the scratch copy (catalogue rewrite)"], timeout=2400, mem_gb=32)
 H("C18", "wdl", _L, "quick", "C18.e WDL records: write(read(b)) == b with exactly the documented size",
   ["c18e_wdl_vec3d", "c18e_wdl_bbox", "c18e_wdl_model_placement", "c18e_wdl_m2_placement", "c18e_wdl_m2_visibility", "c18e_wdl_holes"],
   ["types::Vec3d::{read,write}", "types::BoundingBox::{read,write}", "types::ModelPlacement::{read,write}", "types::M2Placement::{read,write}",
@@ -254,6 +272,10 @@ H("C01", "mpq", _BP, "thorough", "C01.d multi-sector file: sector-CRC flag, encr
 H("C01", "mpq", _BP, "thorough", "C01.d single-unit file with sector checksum (real Adler-32 over symbolic bytes)",
   ["c01d_su_plain_crc", "c01d_su_codec_crc", "c01d_su_enc_crc", "c01d_su_enc_fix_codec_crc"], _pathfns,
   "file content [u8; 5] symbolic, CRC on", "as above", stubs=[FMT, MEMFILE, CODEC], abstraction_stubs=["compress", "decompress"], timeout=2400)
+H("C01", "mpq", _BP, "quick", "C01.d / C10.d edge sizes with sector checksums requested: an empty file (encrypted or not) and a one-byte file are flagged, written and read back; the intact archive verifies",
+  ["c01d_empty_file_crc", "c01d_one_byte_file_crc"], _pathfns + ["adler2::adler32_slice"],
+  "0-byte file: encryption and key-adjust flags symbolic; 1-byte file: content symbolic, compression requested (cannot shrink)", "files of 0 and 1 bytes",
+  stubs=[FMT, MEMFILE, CODEC], abstraction_stubs=["compress", "decompress"], timeout=900)
 H("C01", "mpq", _BP, "quick", "canary", ["c01d_canary"], _pathfns, "vacuity twin", "-", expect="canary", stubs=[FMT, MEMFILE])
 
 # =============================================================================== C17
@@ -353,6 +375,11 @@ H("C08", "mpq", _P, "quick", "C08.b never unverified bytes: apply_patch fails wh
   "outcomes of both digest checks symbolic; COPY patch with 3 symbolic payload bytes, 2-byte base", "COPY patch 2 -> 3 bytes",
   stubs=[FMT, "PatchFile::verify_base / verify_patched -> nondeterministic Ok/Err, recording what verify_patched is shown (abstraction of MD5)"],
   abstraction_stubs=["verify_base", "verify_patched"])
+H("C08", "mpq", _P, "quick", "C08.b same gate for a size-preserving patch whose declared digests are arbitrary, also equal to each other (a no-op patch still has to verify its base)",
+  ["c08b_gate_copy_same_size"], ["patch::apply::apply_patch", "patch::apply::apply_copy_patch"],
+  "outcomes of both digest checks, both declared 16-byte digests (independent or equal), 3 payload bytes and the 3-byte base symbolic", "COPY patch 3 -> 3 bytes",
+  stubs=[FMT, "PatchFile::verify_base / verify_patched -> nondeterministic Ok/Err, recording what verify_patched is shown (abstraction of MD5)"],
+  abstraction_stubs=["verify_base", "verify_patched"])
 H("C08", "mpq", _P, "quick", "C08.a COPY patch: declared sizes are enforced", ["c08a_copy_size_checks"], ["patch::apply::apply_copy_patch"],
   "declared size_before / size_after u32 symbolic; base 2 bytes, payload 3 bytes", "-", stubs=[FMT])
 H("C08", "mpq", _P, "thorough", "C08.a BSD0: a well-formed bsdiff stream turns old into new", ["c08a_bsd0_wellformed"], ["patch::apply::apply_bsd0_patch"],
@@ -387,6 +414,15 @@ H("C19", "ffi", _F, "thorough", "C19.a read step: exactly min(to_read, remaining
   "file of 3 symbolic bytes, cursor in 0..=3 symbolic, to_read in {2, 4}, 8-byte buffer with guard zone", "one call", stubs=[FMT, RS], timeout=2400)
 H("C19", "ffi", _F, "thorough", "C19.c never-issued and closed handles are errors", ["c19c_stale_handle"], ["SFileReadFile", "SFileCloseFile"],
   "handle 9 never issued, handle 7 closed before use", "-", stubs=[FMT, RS], timeout=2400)
+H("C19", "ffi", _F, "thorough", "C19.a info and size queries on an open file: the answer is the file's length / cursor, nothing is written beyond buffer_size (or at all on failure), "
+  "size_needed is reported; closing one file handle leaves the other valid and the closed one invalid",
+  ["c19a_file_info_step", "c19a_file_size_step"], ["SFileGetFileInfo", "get_file_info", "SFileGetFileSize", "SFileCloseFile"],
+  "file of 3 symbolic bytes, cursor in 0..=3, info class u32, buffer_size in 0..=16, presence of the optional out-pointers symbolic; 24-byte buffer with guard zone",
+  "one call on fabricated FILES entries", stubs=[FMT, RS], timeout=2400)
+H("C19", "ffi", _F, "thorough", "C19.a SFileGetArchiveName succeeds exactly when path + NUL fit buffer_size and never writes beyond it",
+  ["c19a_archive_name_fit"], ["SFileGetArchiveName"],
+  "buffer_size in 0..=8 symbolic, path \"a.mp\" (4 bytes), 8-byte buffer with guard zone", "one call on a fabricated ARCHIVES entry (wow_mpq::Archive built from empty tables)",
+  stubs=[FMT, RS], timeout=2400)
 H("C19", "ffi", _F, "quick", "canary", ["c19_canary"], ["SFileGetFileSize"], "vacuity twin", "-", expect="canary", stubs=[FMT])
 
 # =============================================================================== C05 (mpq parsers)
@@ -416,6 +452,14 @@ H("C05", "mpq", _TH, "quick", "C05.mpq.4 classic table decoders are total; looku
   ["tables::HashTable::from_bytes", "tables::BlockTable::from_bytes", "tables::HashTable::find_file"],
   "table data of 0/15/16/32 symbolic bytes x declared entry counts {0,1,2,3,4,2^28,2^32-1}; 2-slot table with fully symbolic entries", "<= 2 entries",
   stubs=[FMT], timeout=900, termination_of=["find_file"])
+H("C01", "mpq", _TH, "quick", "C01.b reader-side lookup is complete and exact: an entry reachable from the home slot by circular linear probing (also across the table end) is found, "
+  "the first matching slot is returned, and a name matching no valid entry is not found - for every hash value of the name",
+  ["c01b_hash_find_complete", "c01b_hash_find_absent"], ["tables::HashTable::find_file"],
+  "4-slot table, all entry fields symbolic; the name's three hash values (home slot, name A, name B) fully symbolic; requested locale symbolic",
+  "4 slots (every home slot, every distance 0..3, wrap-around included)",
+  assumes=["stored locale 0 (neutral) for the completeness clause"],
+  stubs=[FMT, "crypto::hash_string -> symbolic function of the hash type (abstraction: every hash value; the real hash is decided under C04)"],
+  abstraction_stubs=["hash_string"], timeout=900, termination_of=["find_file"])
 H("C05", "mpq", _TH, "quick", "canary", ["c05_tables_canary"], ["tables::HashTable::from_bytes"], "vacuity twin", "-", expect="canary", stubs=[FMT])
 
 # ------------------------------------------------------------------------------- C06.b in-place add path
@@ -466,9 +510,21 @@ H("C02", "mpq", _BP, "quick", "C02.d a stored (uncompressed, unencrypted) file l
   ["archive::Archive::read_file", "archive::Archive::find_file", "tables::HashTable::find_file"],
   "6 content bytes symbolic; single-unit flag symbolic", "6-byte file at archive offset 32",
   stubs=[FMT, MEMFILE], timeout=900)
+H("C02", "mpq", _BP, "quick", "C02.d an encrypted file laid out per the published format (key from the plain name; FIX_KEY: adjusted by the block offset relative to the MPQ header and the file size) "
+  "is read bit-identically, also when the archive starts behind a stub in its containing file",
+  ["c02d_reference_encrypted", "c02d_reference_encrypted_fixkey", "c02d_reference_encrypted_fixkey_embedded"],
+  ["archive::Archive::read_file", "archive::Archive::find_file", "archive::decrypt_file_data", "crypto::hash_string"],
+  "8 content bytes symbolic (two cipher words under the reference cipher); FIX_KEY and archive offset (0 / 64) concrete per harness", "8-byte single-unit file at block offset 32",
+  stubs=[FMT, MEMFILE], timeout=900)
+H("C02", "mpq", _BP, "thorough", "C02.d multi-sector compressed file, writer only: the stored size equals the bytes written and the sector offset table (decrypted with the format's key-1) starts behind itself and ends at the stored size",
+  ["c02d_ms_stored_size_codec", "c02d_ms_stored_size_enc_codec", "c02d_ms_stored_size_enc_fix_codec"],
+  ["builder::ArchiveBuilder::write_file", "builder::ArchiveBuilder::calculate_file_key", "builder::ArchiveBuilder::encrypt_data"],
+  "513-byte file (5 symbolic tail bytes), codec payload symbolic; sector 0 shrinks to 4 bytes under the abstract codec, sector 1 (1 byte) is stored raw", "2 sectors of 512",
+  stubs=[FMT, CODEC], abstraction_stubs=["compress"], timeout=2400, mem_gb=40)
 # NOT registered (do not finish on the unchanged tree): c02d_reference_one_sector_compressed (the reader's sectored path
-# exceeds 20 GB; it only "worked" against a seeded change that made the reader skip that path), c02d_ms_stored_size_* and
-# c02d_builder_to_reference_ms_* (multi-sector writer with the abstract codec: 40 min time-out).  The sector layout of
+# exceeds 20 GB; it only "worked" against a seeded change that made the reader skip that path) and
+# c02d_builder_to_reference_ms_* (multi-sector writer with the abstract codec: 40 min time-out).  c02d_ms_stored_size_* need
+# ~22 GB and ~8 min each when run alone (mem_gb=40 => run one at a time).  The sector layout of
 # compressed multi-sector files is outside the C02 claim.
 
 H("C10", "mpq", _SG, "thorough", "C10.b signature window crossing a 64 KiB digest-unit boundary: exactly the window is zeroed, the bytes behind it stay covered",
